@@ -6,7 +6,7 @@ N=${1:-4}
 cd /verif
 ls -d seeded/C* > /tmp/asp_list.$$
 for d in seeded/benign/C*; do echo "$d"; done >> /tmp/asp_list.$$
-for d in seeded/benign2/* seeded/benign3/* seeded/benign4/* seeded/benign5/* seeded/benign6/*; do [ -d "$d" ] && echo "$d"; done >> /tmp/asp_list.$$
+for d in seeded/benign2/* seeded/benign3/* seeded/benign4/* seeded/benign5/* seeded/benign6/* seeded/benign7/*; do [ -d "$d" ] && echo "$d"; done >> /tmp/asp_list.$$
 # ASP_ONLY=<regex>: only the seeds whose directory matches; ASP_OUT=<file>: result file (default out/allseeds.out)
 if [ -n "$ASP_ONLY" ]; then grep -E "$ASP_ONLY" /tmp/asp_list.$$ > /tmp/asp_list.$$.f; mv /tmp/asp_list.$$.f /tmp/asp_list.$$; fi
 rm -f /tmp/asp_out.$$.*
@@ -21,13 +21,13 @@ while [ $w -lt $N ]; do
       i=$((i+1)); [ $(( (i - 1) % N )) -eq $w ] || continue
       case "$d" in
         seeded/benign/*) ps=$(basename $d);;
-        seeded/benign[23456]/*)
+        seeded/benign[234567]/*)
           f=$(grep "^+++ b/" $d/patch.diff | head -1 | sed 's|+++ b/rust/ommx/src/||')
           case "$f" in
             evaluate.rs) ps="C01 C03 C04 C05 C10";; linear.rs) ps="C02 C12 C13 C03 C04 C11 C16 C08";; parametric_instance.rs) ps="C08 C10";;
             v1_ext/instance.rs) ps="C05 C08 C09 C11 C12 C13 C14 C15";; v1_ext/function.rs) ps="C02 C04 C13 C16 C11 C08";; sample_set.rs) ps="C15";;
             polynomial.rs) ps="C02 C04 C11 C16 C08";; quadratic.rs) ps="C02 C19 C04 C11 C16 C08";; sorted_ids.rs) ps="C02 C11 C04 C16";;
-            mps/convert.rs) ps="C17";; qplib/convert.rs) ps="C19";; *) ps=$(basename $d);;
+            mps/convert.rs) ps="C17";; qplib/convert.rs) ps="C19";; qplib/parser.rs) ps="C19";; *) ps=$(basename $d);;
           esac;;
         *) ps=$(basename $d | cut -c1-3);;
       esac
